@@ -18,6 +18,7 @@ package index_test
 import (
 	"bytes"
 	"fmt"
+	"runtime/debug"
 	"sort"
 	"strings"
 	"testing"
@@ -223,7 +224,7 @@ func c37Entries(g kit.G, content []byte) []c37Entry {
 				// the ctags JSON protocol are always valid UTF-8, so this is outside
 				// the domain; a few are kept as probes (see c37Run), the rest is
 				// widened to whole characters.
-				if g.Bool(3, "keepcut") {
+				if g.Bool(10, "keepcut") {
 					e.How = "probe-name-splits-character"
 				} else {
 					for a > 0 && !utf8.RuneStart(w[a]) {
@@ -404,14 +405,15 @@ func c37CheckDoc(conv *index.VerifTagsToSections, di int, d c37Doc) (c37Outcome,
 // A fresh ShardBuilder costs ~60 ms (two 16 MiB posting tables), far more
 // than a conversion. Whether Add accepts the sections of a document does not
 // depend on the documents added before, so one builder serves many cases; it
-// is replaced after 400 documents and after any failed Add.
+// is replaced after 2500 documents and after any failed Add.
 var (
-	c37Builder     *index.ShardBuilder
-	c37BuilderDocs int
+	c37Builder      *index.ShardBuilder
+	c37BuilderDocs  int
+	c37Probes       int
 )
 
 func c37GetBuilder() (*index.ShardBuilder, error) {
-	if c37Builder == nil || c37BuilderDocs >= 400 {
+	if c37Builder == nil || c37BuilderDocs >= 2500 {
 		b, err := index.NewShardBuilder(&zoekt.Repository{Name: "c37"})
 		if err != nil {
 			return nil, err
@@ -425,10 +427,6 @@ func c37GetBuilder() (*index.ShardBuilder, error) {
 func c37Run(rec *kit.Recorder, c c37Case) error {
 	var conv index.VerifTagsToSections
 	for di, d := range c.Docs {
-		b, err := c37GetBuilder()
-		if err != nil {
-			return err
-		}
 		out, secs, meta, err := c37CheckDoc(&conv, di, d)
 		if err != nil {
 			rec.Eval(fmt.Sprint(d), false, "outcome:discrepancy")
@@ -437,15 +435,34 @@ func c37Run(rec *kit.Recorder, c c37Case) error {
 		// what Convert returned goes to the builder as it is (parseSymbols does the same)
 		want := append([]index.DocumentSection(nil), secs...)
 		doc := index.Document{Name: fmt.Sprintf("f%d.go", di), Content: []byte(d.Content), Language: "Go", Symbols: secs, SymbolsMetaData: meta}
+		if c37SplitsCharacter(d, want) {
+			// Outside the domain: a placed name that is a fragment of a multi-byte
+			// character cannot come out of the ctags JSON protocol. Recorded, not
+			// judged; a separate builder takes these documents because a failed Add
+			// leaves a builder in an undefined state.
+			if c37Probes >= 3 {
+				// a handful of probes is enough evidence; a second builder costs GC time
+				rec.Eval(fmt.Sprint(d), false, "probe:name-splits-character:not-added")
+				continue
+			}
+			c37Probes++
+			pb, err := index.NewShardBuilder(&zoekt.Repository{Name: "c37probe"})
+			if err != nil {
+				return err
+			}
+			if err := pb.Add(doc); err != nil && strings.Contains(err.Error(), "no rune for section boundary") {
+				rec.Eval(fmt.Sprint(d), false, "probe:name-splits-character:builder-rejects")
+			} else {
+				rec.Eval(fmt.Sprint(d), false, fmt.Sprintf("probe:name-splits-character:builder-says:%v", err))
+			}
+			continue
+		}
+		b, err := c37GetBuilder()
+		if err != nil {
+			return err
+		}
 		if err := b.Add(doc); err != nil {
 			c37Builder = nil // undefined state after a failed Add
-			if c37SplitsCharacter(d, want) && strings.Contains(err.Error(), "no rune for section boundary") {
-				// Outside the domain (a name that is a fragment of a character
-				// cannot come out of the ctags JSON protocol); recorded, not judged.
-				// The builder is in an undefined state after a failed Add: stop here.
-				rec.Eval(fmt.Sprint(d), false, "probe:name-splits-character:builder-rejects")
-				return nil
-			}
 			rec.Eval(fmt.Sprint(d), false, "outcome:discrepancy")
 			return kit.Fail("builder-rejects", "doc %d: ShardBuilder.Add rejected the converted sections %v: %v", di, want, err)
 		}
@@ -543,5 +560,8 @@ func TestVerif_C37(t *testing.T) {
 		"entry names are valid UTF-8 (go-ctags decodes them from JSON); a name that is a fragment of a multi-byte character is outside the domain: such probes are generated rarely and only counted (label probe:name-splits-character:builder-rejects) - ShardBuilder.Add does reject them with 'no rune for section boundary'",
 		"the Kind / Parent / ParentKind strings of an entry are copied to the output metadata (used to trace sections back to entries)",
 	)
+	// The builder's 16 MiB pointer tables are rescanned by every GC cycle and
+	// rapid produces garbage quickly: collect less often.
+	defer debug.SetGCPercent(debug.SetGCPercent(800))
 	kit.Property(t, rec, c37Gen, func(c c37Case) error { return c37Run(rec, c) })
 }
